@@ -48,11 +48,11 @@ Fixpoint e2e_go (c : config) (i : N) (s : state) (acc : N * N * N * N * N * list
   | (ops, (oa, os, pl, ql, lk)) :: tl =>
       let '(s', mk') := run_ops c s (if ir =? 0 then mk else []) ops in
       let mk2 := if ir =? 0 then mk' else mk in
-      let ob := mkOut oa os [] pl ql lk RNone in
+      let ob := mkOut oa os [] pl ql lk RNone 0 in
       let mm' := if (mm =? 0) && negb (teqb oa (act s') && teqb os (sby s') && link_eqb lk (lnk s'))
                  then i else mm in
-      let '(ir', ic') := if (ir =? 0) && v2 ob then (i, 3) else (ir, ic) in
-      let '(mr', mc') := if (mr =? 0) && v2 (observe s' RNone) then (i, 3) else (mr, mc) in
+      let '(ir', ic') := if (ir =? 0) && v2 (ql =? 0) ob then (i, 3) else (ir, ic) in
+      let '(mr', mc') := if (mr =? 0) && v2 (nilb (cq s')) (observe s' RNone) then (i, 3) else (mr, mc) in
       e2e_go c (i + 1) s' (mm', ir', ic', mr', mc', mk2) tl
   end.
 
